@@ -92,6 +92,13 @@ def stressors():
         out.append(("hex", "rule r { strings: $a = { %s } condition: $a }" % ("41 " * (n // 3))))
         out.append(("meta", 'rule r { meta: m = "%s" condition: true }' % ("m" * n)))
         out.append(("cmt", "rule r { /* %s */ condition: true }" % ("c" * n)))
+    # long NON-literal patterns: more than 1024 top-level elements (the atom extractor's stack grows), wildcards, jumps
+    for n in (500, 1030, 2100, 6000):
+        out.append(("hex-long-wild", "rule r { strings: $a = { %s 42 } condition: $a }" % ("41 ?? " * n)))
+        out.append(("hex-long-nibble", "rule r { strings: $a = { %s 42 } condition: $a }" % ("4? 41 " * n)))
+        out.append(("re-long-dots", "rule r { strings: $a = /%sb/ condition: $a }" % ("a." * n)))
+        out.append(("re-long-classes", "rule r { strings: $a = /%sb/ nocase wide ascii condition: $a }" % ("[a-c]x" * n)))
+        out.append(("hex-long-jumps", "rule r { strings: $a = { %s 42 } condition: $a }" % ("41 [1-2] " * n)))
     for n in (10, 100, 1000, 5000):
         out.append(("parens", "rule r { condition: %s true %s }" % ("(" * n, ")" * n)))
         out.append(("parens-open", "rule r { condition: %s true }" % ("(" * n)))
